@@ -16,12 +16,16 @@ structure Inst where
 structure LoopInst where
   cfg : SyncLoop.LoopCfg
   st : SyncLoop.St
+  /-- the instance's snapshot cleaner (`Syncer.cleaner`) -/
+  cl : Cleaner.St := Cleaner.St.init
 
 structure DrvState where
   cleaner : Ls.Cleaner.Drv := {}
   envs : List (String × Inst) := []
   loops : List (String × LoopInst) := []
   bucket : SyncLoop.Bucket := []
+  /-- snapshots a cleaner has deleted: a receiver may still hold one in memory and hand it over -/
+  grave : SyncLoop.Bucket := []
   /-- the receiver model (C16), instances named by strings -/
   recv : Option (Recv.St String) := none
 
